@@ -724,6 +724,82 @@ def arrays_case(case, res):
     masked("-array", -P, [-v for v in pv], {"op": "neg"})
     masked("abs(array)", abs(P), [abs(v) for v in pv], {"op": "abs"})
     res.transitions += 3
+    # item assignment and everything built on it (augmented assignment on an element / slice / mask, numpy.roll, fill):
+    # the addressed elements get the exact value, stay normalised, the others are untouched
+    base_n, base_f = np.array([1e15, 7.0, 3.0, -2.0 ** 40]), np.array([0.3, 0.2, 0.25, -0.45])
+    xs = exact(Phase(base_n, base_f))
+    new_v = F(21, 4)
+
+    def fresh():
+        return Phase(base_n.copy(), base_f.copy())
+
+    def do(label, fn, want):
+        res.transitions += 1
+        res.state(("setitem", label))
+        q = fresh()
+        try:
+            out = fn(q)
+        except Exception as e:
+            res.violation(f"setitem|{label}|raised", f"{type(e).__name__}: {e}", case, {"form": label})
+            return
+        got = q if out is None else out
+        if type(got) is not Phase:
+            res.violation(f"setitem|{label}|type", f"{type(got).__name__}", case, {"form": label})
+            return
+        gi, gf = parts(got)
+        gv = exact(got)
+        if (len(gv) != len(want) or any(abs(a - w) > TOL for a, w in zip(gv, want))
+                or any(float(i) != math.floor(float(i)) for i in gi) or any(abs(float(f)) > 0.5 for f in gf)):
+            res.violation(f"setitem|{label}|value", f"{label}: phase is now int={[float(i) for i in gi]}, frac={[float(f) for f in gf]}; "
+                          f"exact values {[float(w) for w in want]}", case, {"form": label})
+        else:
+            res.hits["item assignment forms"] += 1
+
+    def setter(idx, val):
+        def f(q):
+            q[idx] = val
+        return f
+
+    def aug(idx, op, val):
+        def f(q):
+            if op == "+":
+                q[idx] += val
+            elif op == "-":
+                q[idx] -= val
+            elif op == "*":
+                q[idx] *= val
+            else:
+                q[idx] /= val
+        return f
+
+    do("q[1] = Phase", setter(1, Phase(5.0, 0.25)), [xs[0], new_v, xs[2], xs[3]])
+    do("q[1] = Quantity", setter(1, 5.25 * u.cycle), [xs[0], new_v, xs[2], xs[3]])
+    do("q[-1] = Phase (two doubles)", setter(-1, Phase(2.0 ** 45, 0.3)), [xs[0], xs[1], xs[2], F(2 ** 45) + F(0.3)])
+    do("q[0:2] = q[2:4]", lambda q: setter(slice(0, 2), q[2:4].copy())(q), [xs[2], xs[3], xs[2], xs[3]])
+    do("q[[0, 3]] = Phase scalar (broadcast)", setter([0, 3], Phase(5.0, 0.25)), [new_v, xs[1], xs[2], new_v])
+    do("q[mask] = Phase array", setter(np.array([True, False, True, False]), Phase(np.array([5.0, 1e15]), np.array([0.25, 0.3]))),
+       [new_v, xs[1], xs[0], xs[3]])
+    do("q[...] = Phase scalar", setter(Ellipsis, Phase(5.0, 0.25)), [new_v] * 4)
+    do("q[1] += 1", aug(1, "+", 1.0), [xs[0], xs[1] + 1, xs[2], xs[3]])
+    do("q[0:2] *= 2", aug(slice(0, 2), "*", 2), [2 * xs[0], 2 * xs[1], xs[2], xs[3]])
+    do("q[0:2] -= Phase(0.25)", aug(slice(0, 2), "-", Phase(0.25)), [xs[0] - F(1, 4), xs[1] - F(1, 4), xs[2], xs[3]])
+    do("q[1:] /= 2", aug(slice(1, None), "/", 2), [xs[0], xs[1] / 2, xs[2] / 2, xs[3] / 2])
+    do("q[q > Phase(5)] += 1", lambda q: aug(np.asarray(q > Phase(5.0)), "+", 1.0)(q), [xs[0] + 1, xs[1] + 1, xs[2], xs[3]])
+    do("np.roll(p, 1)", lambda q: np.roll(q, 1), [xs[3], xs[0], xs[1], xs[2]])
+    do("np.roll(p, -1) + 0", lambda q: np.roll(q, -1) + 0, [xs[1], xs[2], xs[3], xs[0]])
+    do("p.fill(Phase)", lambda q: q.fill(Phase(5.0, 0.25)), [new_v] * 4)
+    do("p[::-1].copy()", lambda q: q[::-1].copy(), xs[::-1])
+    # a value that is not an angle is refused and leaves the phase as it was
+    q = fresh()
+    res.transitions += 1
+    try:
+        q[1] = 3 * u.s
+        res.violation("setitem|wrong unit accepted", f"q[1] = 3 s was accepted: {q!r}", case, None)
+    except Exception:
+        if exact(q) != xs:
+            res.violation("setitem|refused but modified", "q[1] = 3 s raised and changed the phase", case, None)
+        else:
+            res.hits["item assignment of a non-angle refused"] += 1
     # ufunc.at (unbuffered in-place update at given positions): the update is made exactly, or the call is refused -
     # leaving the phase unchanged without a word is a silent loss
     for nm, call, delta in (("np.add.at(p, [0], 1.0)", lambda q: np.add.at(q, [0], 1.0), F(1)),
@@ -840,7 +916,7 @@ def main(argv=None):
         required_hits=["exact +-1/2 fraction", "imaginary phase", "factor kinds", "imaginary factor", "same factor array used twice", "in-place real<->imaginary transitions", "addend kinds",
                        "unit-mismatched addend rejected", "out= forms", "Phase divisor", "in-place remainder",
                        "remainder within 2^-52 of 0 or d (either neighbour accepted)", "whole grid as one array",
-                       "trig/exp on fractional part", "construction kinds", "smaller number given first", "Phase divisor needing two doubles", "dividend just below a multiple of the divisor", "Quantity dividend, Phase divisor", "remainder written into the divisor"],
+                       "trig/exp on fractional part", "construction kinds", "smaller number given first", "Phase divisor needing two doubles", "dividend just below a multiple of the divisor", "Quantity dividend, Phase divisor", "remainder written into the divisor", "item assignment forms", "item assignment of a non-angle refused"],
         assumptions=["operand values are read back exactly (Fractions of the stored doubles); results beyond 2^52 cycles are outside "
                      "the property", "plain-number divisors of // % divmod are refused by astropy (unit error) and left open",
                      "list * Phase (Python sequence repetition) is not arithmetic"],
